@@ -127,10 +127,13 @@ parsec_info_id_t parsec_info_unregister(parsec_info_t *nfo, parsec_info_id_t iid
                     item2 != PARSEC_LIST_ITERATOR_END(&nfo->ioa_list);
                     item2 = PARSEC_LIST_ITERATOR_NEXT(item2)) {
                     ioa = (parsec_info_object_array_t*)item2;
+                    /* the array can be resized (reallocated) by a concurrent get/set */
+                    parsec_atomic_rwlock_rdlock(&ioa->rw_lock);
                     if(iid < ioa->known_infos && NULL != ioa->info_objects[iid]) {
                         ie->destructor(ioa->info_objects[iid], ie->des_data);
                         ioa->info_objects[iid] = NULL;
                     }
+                    parsec_atomic_rwlock_rdunlock(&ioa->rw_lock);
                 }
                 parsec_list_unlock(&nfo->ioa_list);
             }
@@ -216,13 +219,15 @@ static void parsec_info_object_array_constructor(parsec_object_t *obj)
 void parsec_info_object_array_init(parsec_info_object_array_t *oa, parsec_info_t *nfo, void *cons_obj)
 {
     oa->known_infos = nfo->max_id+1;
-    parsec_list_push_front(&nfo->ioa_list, &oa->list_item);
     if(oa->known_infos == 0)
         oa->info_objects = NULL;
     else
         oa->info_objects = calloc(oa->known_infos, sizeof(void*));
     oa->infos = nfo;
     oa->cons_obj = cons_obj;
+    /* Publish the array only once it is usable: parsec_info_unregister walks
+     * ioa_list and looks into info_objects */
+    parsec_list_push_front(&nfo->ioa_list, &oa->list_item);
 }
 
 static void parsec_info_object_array_destructor(parsec_object_t *obj)
